@@ -216,16 +216,31 @@ class DonorError(Exception):
     pass
 
 
+def _shaped(spec, root, seen):
+    v = build_value(spec, root)
+    if isinstance(spec, dict) and spec.get('t') == 'list':
+        seen.extend(v)
+        shape = spec.get('as', 'list')        # any iterable is a batch: also one that can be walked only once
+        if shape == 'tuple':
+            return tuple(v)
+        if shape == 'iter':
+            return iter(v)
+        if shape == 'gen':
+            return (x for x in v)
+    return v
+
+
 def prepare_op(root, op):
     """Resolve the receiver and build the argument values (donors).  Raises DonorError when the op's own
     arguments cannot be built (a generator problem, not a verdict on the code under test)."""
     try:
         recv = intro.resolve(root, op['path'])
-        val = build_value(op['val'], root) if 'val' in op else None
-        args = [build_value(a, root) for a in op.get('args', [])]
+        seen = []           # the nodes of batches, also of those handed over as one-shot iterables
+        val = _shaped(op['val'], root, seen) if 'val' in op else None
+        args = [_shaped(a, root, seen) for a in op.get('args', [])]
     except Exception as e:
         raise DonorError(repr(e)) from e
-    return {'recv': recv, 'val': val, 'args': args}
+    return {'recv': recv, 'val': val, 'args': args, 'batch_items': seen}
 
 
 def apply_op(root, op):
@@ -520,6 +535,10 @@ FOREIGN = [
 ]
 
 
+def _batch_shape(r):
+    return r.choice(['list', 'list', 'list', 'tuple', 'iter', 'gen'])
+
+
 def _attached_ref(r, root, tys):
     """A spec referring to an attached node of a compatible type (for the refusal stream): somewhere in this document,
     or inside another document / free-standing model."""
@@ -581,7 +600,7 @@ def _gen_list_op(r, root, path, m, attr, tys, sp, malformed, raw=True):
         vs = [val() for _ in range(k)]
         if any(v is None for v in vs):
             return None
-        return {'k': 'setitem', 'kind': 'rep-setslice', 'idx': s, 'val': {'t': 'list', 'items': vs}, **base_op}
+        return {'k': 'setitem', 'kind': 'rep-setslice', 'idx': s, 'val': {'t': 'list', 'items': vs, 'as': _batch_shape(r)}, **base_op}
     if c < 0.78:
         if r.random() < 0.5 and (n or malformed):
             i = _idx_choices(r, n) if malformed else r.randrange(-n, n)
@@ -591,7 +610,7 @@ def _gen_list_op(r, root, path, m, attr, tys, sp, malformed, raw=True):
         vs = [val() for _ in range(r.choice([0, 1, 2, 3]))]
         if any(v is None for v in vs):
             return None
-        return {'k': 'call', 'kind': 'rep-extend', 'm': 'extend', 'args': [{'t': 'list', 'items': vs}], **base_op}
+        return {'k': 'call', 'kind': 'rep-extend', 'm': 'extend', 'args': [{'t': 'list', 'items': vs, 'as': _batch_shape(r)}], **base_op}
     if c < 0.89:
         return {'k': 'call', 'kind': 'rep-clear', 'm': 'clear', 'args': [], **base_op}
     if c < 0.95 and n:
@@ -679,7 +698,7 @@ def _gen_view_op(r, root, path, m, name, sp, malformed):
         vs = [mk() for _ in range(k)]
         if any(v is None for v in vs):
             return None
-        return {'k': 'setitem', 'kind': 'view-setslice', 'idx': s, 'val': {'t': 'list', 'items': vs}, **base_op}
+        return {'k': 'setitem', 'kind': 'view-setslice', 'idx': s, 'val': {'t': 'list', 'items': vs, 'as': _batch_shape(r)}, **base_op}
     if c < 0.84:
         if r.random() < 0.5 and (n or malformed):
             i = _idx_choices(r, n) if malformed else r.randrange(-n, n)
@@ -689,7 +708,7 @@ def _gen_view_op(r, root, path, m, name, sp, malformed):
         vs = [mk() for _ in range(r.choice([0, 1, 2]))]
         if any(v is None for v in vs):
             return None
-        return {'k': 'call', 'kind': 'view-extend', 'm': 'extend', 'args': [{'t': 'list', 'items': vs}], **base_op}
+        return {'k': 'call', 'kind': 'view-extend', 'm': 'extend', 'args': [{'t': 'list', 'items': vs, 'as': _batch_shape(r)}], **base_op}
     if c < 0.95:
         return {'k': 'call', 'kind': 'view-clear', 'm': 'clear', 'args': [], **base_op}
     if name in _VIEW_ELEM:
